@@ -49,7 +49,21 @@ package state
 //@   ensures result1 == nil && old(options == nil || options.Time.IsZero()) ==> s.lastNoticeTimestamp.After(old(s.lastNoticeTimestamp)) && final(now) == s.lastNoticeTimestamp
 //@   ensures result1 == nil ==> final(notice) != nil && final(notice).lastOccurred == final(now)
 //@   ensures result1 == nil && final(newOrRepeated) ==> final(notice).lastRepeated == final(now)
+//@   ensures [repeat-window] result1 == nil && final(ok) ==> final(newOrRepeated) == (final(options).RepeatAfter == 0 || final(now).After(old(final(notice).lastRepeated).Add(final(options).RepeatAfter)))
+//@   ensures [first-occurrence-announced] result1 == nil && !final(ok) ==> final(newOrRepeated)
+//@   ensures [window-recorded] result1 == nil ==> final(notice).repeatAfter == final(options).RepeatAfter && (old(options) != nil ==> final(options) == old(options))
 //@   ensures result1 == nil && !final(newOrRepeated) ==> final(notice).lastRepeated == old(final(notice).lastRepeated) && !final(ok) == false
+
+// the reply is ordered by the time clients use as their cursor (last repeated), so that moving the
+// cursor to the last notice of a reply never skips or repeats one
+//@ func (*State).Notices$1
+//@   props C08
+//@   ensures result == notices[i].lastRepeated.Before(notices[j].lastRepeated)
+
+//@ func (*State).Notices
+//@   props C08
+//@   guard call sort.Slice: [sorts-the-reply] called("flattenNotices")
+//@   guard call flattenNotices: [with-the-callers-filter] arg1 == filter
 
 //@ func lemCursorSeesNewNoticeOnce
 //@   lemma
